@@ -214,6 +214,14 @@ pub fn check_step(cfg: &SpecCfg, obs: &StepObs, focus: &Focus) -> (Vec<Finding>,
     let (actor_slot, line): (usize, Option<String>) = match &obs.act {
         Act::Send(i, l) | Act::SendHeldFirst(i, l) => (*i, Some(l.clone())),
         Act::Eof(i) | Act::EofPartial(i, _) | Act::Connect(i) => (*i, None),
+        Act::Raw(i, b) => {
+            // bytes that are not valid text or an over-long line end that connection
+            let bad = std::str::from_utf8(b).is_err() || b.split(|c| *c == b'\n').any(|l| l.len() > crate::world::MAX_LINE);
+            if !bad {
+                return (out, false);
+            }
+            (*i, None)
+        }
         _ => return (out, false),
     };
     let info = match obs.pre_infos[actor_slot].as_ref() {
